@@ -52,7 +52,24 @@ CHECKS = {
 
 NOT_APPLICABLE = {}
 
+# checks registered by their own module: lib/checks/cNN.py may define
+#   MANIFEST = dict(cat=<level category>, ref=<DESIGN.md section>, tech=<technique>, text=<level text>, note=<level note>)
+def _module_checks():
+    import importlib, sys, glob
+    sys.path.insert(0, os.path.join(ROOT, "lib"))
+    for f in sorted(glob.glob(os.path.join(ROOT, "lib", "checks", "c[0-9][0-9].py"))):
+        pid = os.path.basename(f)[:-3].upper()
+        mod = importlib.import_module("checks." + pid.lower())
+        m = getattr(mod, "MANIFEST", None)
+        if m and pid not in CHECKS:
+            assert m["cat"] == mod.LEVEL, (pid, "MANIFEST cat differs from LEVEL")
+            CHECKS[pid] = m
+        na = getattr(mod, "NOT_APPLICABLE", None)
+        if na and pid not in CHECKS:
+            NOT_APPLICABLE[pid] = na
+
 def main():
+    _module_checks()
     ids = [json.loads(l)["id"] for l in open(os.path.join(ROOT, "properties.jsonl"))]
     checks = []
     for pid in ids:
